@@ -151,6 +151,26 @@ CHECKS = {
               "points than one line, fix: 3f60caa)."),
         technique="TLA+ enumeration of list/table/matrix shapes with declarative content laws (TLC) + write->read replay and neutral text parse",
     ),
+    "C10": dict(
+        cat="model_checking",
+        text=("specs/CycleCount.tla transcribes both shipped findap algorithms (vectorised; loop = the numba-decorated body) and the "
+              "declarative requirement Req (first sample selected, strict alternation of the selected values, global extremes within "
+              "tolerance); TLC evaluates them for EVERY integer signal of length <= 6 over 0..3 (thorough: 7) at three tolerance "
+              "levels (12.5k cases), proves DefaultTolOK (at the default-like tolerance both variants agree and meet Req) and exports "
+              "per input the selections and verdicts. The real findap and the loop body extracted with ast from the working tree are "
+              "run on exact dyadic images; the verdict is always TLC's Req/agreement judgement (real selections that differ from the "
+              "transcription are re-judged by TLC in trace mode). binify: half-open interval membership and conservation for every "
+              "cycle pair x 15 bin specifications x right/left (TLC invariant Conservation) replayed exactly, plus auto-bin "
+              "conservation sweeps. fdepsd: option lattice; integer facts of every count row trace-validated by TLC "
+              "(CycleCountTrace.tla), real-valued clauses (Amax <= SRS, G2 >= G1, damage sums, variance relation, amplitude^2 "
+              "scaling) as comparisons on the run's own outputs."),
+        ref="4/C10",
+        note=("Trusted: TLC. numba absent: the accelerated findap is its undecorated definition. Known findings (known_findings.json): with "
+              "tolerances coarse enough to merge unequal neighbours both findap variants violate Req on drift families and disagree; "
+              "one genuine defect repaired (unassigned variable in the loop variant, fix: 51d2056). The variance clause is checked "
+              "for resp='absacce' (the pvelo indicator is rescaled for output)."),
+        technique="TLA+ transcription + declarative requirement checked exhaustively by TLC; replay + TLC trace judgement of real selections",
+    ),
 }
 
 NOT_YET = {}
